@@ -1,8 +1,9 @@
 #!/usr/bin/env python3
 """Regenerates the 'Round 3' table of DESIGN.md §10 from /verif/seeded/*-r3*/meta.json."""
 import json, glob, os
+import re
 rows = []
-for d in sorted(glob.glob('/verif/seeded/*-r3*')):
+for d in sorted(glob.glob('/verif/seeded/*-r[3-9]*'), key=lambda d: (re.search(r'-r(\d)', d).group(1), d)):
     m = json.load(open(d + '/meta.json'))
     det = m['detection']
     how = det['detected_by_check']
@@ -10,7 +11,7 @@ for d in sorted(glob.glob('/verif/seeded/*-r3*')):
     star = '* ' if 'missed at first' in note else ''
     caught = f"{star}{how}: {det['command'].split('patch.diff ')[-1]}" + (f" — {note}" if note else '')
     rows.append(f"| {os.path.basename(d)} | {(m.get('summary') or '')[:150].replace('|','/')} | {caught.replace('|','/')} |")
-block = ["### Round 3 (two changes per property, after C07 and C12 were added; worktrees at the repaired tree)", "",
+block = ["### Rounds 3 and 4 (two changes per property and round, after C07 and C12 were added; worktrees at the repaired tree; round 4 asked for easily overlooked sites and feature interplay)", "",
          "Same rules as before (sub-agents see only the property text and a scratch worktree; every change was re-confirmed with tools/confirm_seed.sh: builds, both suites pass with it, the demonstration fails with it and passes without it). `*` marks changes that a check missed as it stood and caught after the strengthening named in the row; a change outside the bounded claim of the property's own check is listed with the check that does catch it.", "",
          "| seed | change (sub-agent's summary) | caught by |", "|---|---|---|"] + rows
 B, E = "<!-- BEGIN R3 -->", "<!-- END R3 -->"
